@@ -71,6 +71,9 @@ pub fn validity(ctx: &Ctx, version: u16) -> NStats {
             for op in creators(&format!("{}{}", prefix, n)) {
                 hists.push(History { version, seed: seed.into(), ops: vec![op], reopen_after: vec![false] });
             }
+            // missing ancestors: a refusal must not leave them behind
+            hists.push(History { version, seed: seed.into(), ops: vec![Op::CreateStorageAll(format!("{}q1/q2/{}", prefix, n))], reopen_after: vec![false] });
+            hists.push(History { version, seed: seed.into(), ops: vec![Op::CreateStorageAll(format!("{}q1/{}/q3", prefix, n))], reopen_after: vec![false] });
         }
     }
     ctx.sample(json!({"validity_history": hists[hists.len() / 2]}));
